@@ -56,7 +56,8 @@ def run_tlc(module, cfg=None, env=None, workers=None, timeout=1500, simulate=Non
     """Runs TLC on spec/<module>.tla.  REPLAY lines are decoded and written to cases_path (ndjson).
     A TLC error (invariant violated by the SPEC, evaluation error, timeout) is a tool error."""
     os.makedirs(WORK, exist_ok=True)
-    meta = os.path.join(WORK, f"tlc-{module}-{os.getpid()}")
+    import uuid
+    meta = os.path.join(WORK, f"tlc-{module}-{os.getpid()}-{uuid.uuid4().hex[:8]}")
     cmd = [TLCX, "-metadir", meta, "-cleanup", "-noGenerateSpecTE",
            "-workers", str(workers or min(16, os.cpu_count() or 4)),
            "-config", (cfg or module) + ".cfg"]
@@ -447,6 +448,113 @@ def refstore_stage(ev, prop, tier, seed, timeout=3000):
                 ev.samples.append({"doc": sval_to_json(c["doc"]),
                                    "history": [f"{o['op']} {''.join(map(chr, o['path']))}" + (f" := {json.dumps(sval_to_json(o['value']))}" if o["op"] == "write" else "") + ("" if o["exists"] else "  (dangling)") for o in c["ops"]]})
     return mism, cases
+
+
+def run_worker(cases_path, events_path, per_case_timeout=20.0):
+    """Runs harness `worker` over the cases in child processes; a child that dies or hangs is data:
+    a {"ev":"crash"} event is synthesised for the call that never returned and the rest of the cases
+    continue in a fresh child.  The first call event of each case is enriched with the recogniser's
+    verdict (when TLC exported it) or with the query string (so that TLC can decide)."""
+    with open(cases_path) as f:
+        cases = [json.loads(l) for l in f if l.strip()]
+    by_id = {json.dumps(c["id"]): c for c in cases}
+    pos, crashes, n_events = 0, [], 0
+    with open(events_path, "w") as out:
+        while pos < len(cases):
+            batch = cases[pos:]
+            p = subprocess.Popen([harness_bin("worker")], stdin=subprocess.PIPE, stdout=subprocess.PIPE, stderr=subprocess.PIPE, text=True)
+            import threading
+            def feed(proc=p, b=batch):
+                try:
+                    for c in b:
+                        proc.stdin.write(json.dumps(c) + "\n")
+                    proc.stdin.close()
+                except BrokenPipeError:
+                    pass
+            th = threading.Thread(target=feed, daemon=True)
+            th.start()
+            import queue
+            qlines = queue.Queue()
+            def pump(proc=p, ql=qlines):
+                for ln in proc.stdout:
+                    ql.put(ln)
+                ql.put(None)
+            threading.Thread(target=pump, daemon=True).start()
+            open_call, seen_first = None, set()
+            timed_out = False
+            while True:
+                try:
+                    line = qlines.get(timeout=per_case_timeout)
+                except queue.Empty:
+                    timed_out = True
+                    p.kill()
+                    break
+                if line is None:
+                    break
+                e = json.loads(line)
+                key = json.dumps(e["id"])
+                if e["ev"] == "call":
+                    open_call = e
+                    if key not in seen_first:
+                        seen_first.add(key)
+                        c = by_id[key]
+                        if "verdict" in c:
+                            e["verdict"] = c["verdict"]
+                        else:
+                            e["q"] = c["q"] if not isinstance(c["q"], str) else [ord(ch) for ch in c["q"]]
+                else:
+                    open_call = None
+                e = {k: v for k, v in e.items() if v is not None}      # the TLA+ Json module has no null
+                out.write(json.dumps(e) + "\n")
+                n_events += 1
+            p.wait()
+            # how many cases were completed: count distinct ids that returned from their last entry
+            if open_call is None and p.returncode == 0 and not timed_out:
+                pos = len(cases)
+                break
+            # crashed or hung inside open_call (or died between calls)
+            if open_call is not None:
+                crash = {"ev": "crash", "id": open_call["id"], "entry": open_call["entry"],
+                         "how": "timeout" if timed_out else f"exit status {p.returncode}",
+                         "stderr": (p.stderr.read() or "")[-300:] if not timed_out else ""}
+                out.write(json.dumps(crash) + "\n"); n_events += 1
+                crashes.append(crash)
+                idx = next(i for i, c in enumerate(cases) if json.dumps(c["id"]) == json.dumps(open_call["id"]))
+                pos = idx + 1
+            else:
+                raise ToolError(f"worker ended abnormally outside a call (rc={p.returncode})")
+    return n_events, crashes
+
+
+def validate_trace(ev, module, trace_path, label, timeout=1200):
+    """impl -> spec: TLC checks a recorded trace against a trace specification; returns the MISMATCH records."""
+    t = time.time()
+    import uuid
+    meta = os.path.join(WORK, f"tlc-{module}-{os.getpid()}-{uuid.uuid4().hex[:8]}")
+    cmd = ["timeout", str(timeout), TLCX, "-metadir", meta, "-cleanup", "-noGenerateSpecTE", "-workers", "1",
+           "-config", module + ".cfg", module + ".tla"]
+    e = dict(os.environ, TRACE=os.path.abspath(trace_path), TLC_JAVA_OPTS="-Dtlc2.tool.queue.IStateQueue=StateDeque")
+    p = subprocess.run(cmd, cwd=SPEC, env=e, stdout=subprocess.PIPE, stderr=subprocess.STDOUT, text=True)
+    shutil.rmtree(meta, ignore_errors=True)
+    mism, summary, generated, distinct = [], None, 0, 0
+    for line in p.stdout.splitlines():
+        if line.startswith('<<"MISMATCH", '):
+            mism.append(json.loads(json.loads(line[len('<<"MISMATCH", '):-2])))
+        elif line.startswith('<<"TRACE-SUMMARY", '):
+            summary = json.loads(json.loads(line[len('<<"TRACE-SUMMARY", '):-2]))
+        m = re.match(r"^(\d[\d,]*) states generated, (\d[\d,]*) distinct states found", line)
+        if m:
+            generated = int(m.group(1).replace(",", "")); distinct = int(m.group(2).replace(",", ""))
+    if p.returncode != 0 or summary is None:
+        log(p.stdout[-3000:])
+        raise ToolError(f"trace validation with {module} failed (rc={p.returncode})")
+    if summary["consumed"] < summary["events"]:
+        raise ToolError(f"trace validation with {module} did not consume the whole trace: {summary}")
+    r = TlcResult(); r.generated = generated; r.distinct = distinct; r.nreplay = 0; r.wall = time.time() - t
+    ev.add_tlc(label, r, f"trace validation: {summary['events']} recorded events, {summary['mismatches']} not allowed by the specification")
+    ev.traces += summary["events"]
+    log(f"[trace] {module}: {summary['events']} events validated, {len(mism)} mismatches, {time.time()-t:.1f}s")
+    return mism, summary
 
 
 def GS(prop, mode, checks):
